@@ -149,6 +149,13 @@ def op_with(cfg, kw, inner=None, boom=False):
                         raise Fail("ensures.override_visible_inside", kwargs=kw, key=k, got=inside[k], want=want)
                 elif inside[k] != outside[k]:
                     raise Fail("ensures.kept", kwargs=kw, key=k)
+            # thread locality, seen from the other side: a thread WITHOUT a scope reads what this thread read outside
+            seen = {}
+            th = threading.Thread(target=lambda: seen.update(r=reads(cfg)))
+            th.start()
+            th.join()
+            if seen.get("r") != outside:
+                raise Fail("stable.override_invisible_to_threads_without_a_scope", kwargs=kw, other_thread_reads=seen.get("r"), want=outside)
             if inner is not None:
                 try:
                     with cfg(**inner):
@@ -158,6 +165,10 @@ def op_with(cfg, kw, inner=None, boom=False):
                 again = reads(cfg)
                 if again != inside:
                     raise Fail("ensures.rejected_nested_scope_is_noop", outer=kw, inner=inner, before=inside, after=again)
+            if boom == "SystemExit":
+                raise SystemExit(1)
+            if boom == "GeneratorExit":
+                raise GeneratorExit()
             if boom:
                 raise KeyError("boom")
     except ConfigException:
@@ -166,6 +177,8 @@ def op_with(cfg, kw, inner=None, boom=False):
         return "rejected"
     except KeyError:
         pass
+    except (SystemExit, GeneratorExit):
+        pass  # leaving the scope by ANY exception restores (checked below)
     except Fail:
         raise
     except Exception:
@@ -193,7 +206,7 @@ def sequences(mode, depth):
     if mode in ("setattr", "all"):
         ops += [("setattr", k) for k in ("DEFAULT_SCHEMA", "_private", "TSQL_NO_SEMICOLON")]
     if mode in ("protocol", "all", "getattr", "parse"):
-        ops += [("with", kw, None, False) for kw in kws] + [("with", kws[1], kw, False) for kw in kws[:8]] + [("with", kws[1], None, True), ("with", kws[5], kws[1], True)]
+        ops += [("with", kw, None, False) for kw in kws] + [("with", kws[1], kw, False) for kw in kws[:8]] + [("with", kws[1], None, True), ("with", kws[5], kws[1], True), ("with", kws[1], None, "SystemExit"), ("with", kws[5], None, "GeneratorExit")]
     if mode in ("call", "enter", "exit"):
         ops += [("enter",), ("exit",), ("call", kws[1])]
     for d in range(1, depth + 1):
